@@ -25,13 +25,14 @@ type edit struct {
 }
 
 type mutant struct {
-	ID      string
-	Prop    string
-	Rule    string
-	Vectors bool
-	Edits   []edit
-	Expect  string // substring of the key of a non-discharged obligation
-	Note    string
+	Harmless bool // behaviour-preserving edit: the rule must stay silent
+	ID       string
+	Prop     string
+	Rule     string
+	Vectors  bool
+	Edits    []edit
+	Expect   string // substring of the key of a non-discharged obligation
+	Note     string
 }
 
 type mutantResult struct {
@@ -121,6 +122,13 @@ func runMutant(repo string, m mutant) mutantResult {
 		}
 	}
 	sort.Strings(res.Reported)
+	if m.Harmless {
+		res.Status = "quiet"
+		if len(res.Reported) > 0 {
+			res.Status = "false-alarm"
+		}
+		return res
+	}
 	res.Status = "missed"
 	for _, k := range res.Reported {
 		if strings.Contains(k, m.Expect) {
@@ -155,7 +163,7 @@ func runMutants(repo string, ms []mutant, par int) []mutantResult {
 // runSelfTest is called by the thorough tier for one property.
 func runSelfTest(repo, verif, prop string) interface{} {
 	var ms []mutant
-	for _, m := range mutantTable() {
+	for _, m := range append(mutantTable(), harmlessTable()...) {
 		if m.Prop == prop {
 			ms = append(ms, m)
 		}
@@ -170,7 +178,8 @@ func runSelfTest(repo, verif, prop string) interface{} {
 		sum[r.Status]++
 		rs[i].Suite = suite[r.ID]
 	}
-	return map[string]interface{}{"applied": len(ms), "detected": sum["detected"], "missed": sum["missed"], "stale": sum["stale"], "load_error": sum["load-error"], "results": rs}
+	return map[string]interface{}{"applied": len(ms), "detected": sum["detected"], "missed": sum["missed"], "stale": sum["stale"], "load_error": sum["load-error"],
+		"harmless_quiet": sum["quiet"], "harmless_false_alarm": sum["false-alarm"], "results": rs}
 }
 
 func cmdSelftest(args []string) int {
@@ -205,7 +214,7 @@ func cmdSelftest(args []string) int {
 		return 0
 	}
 	var ms []mutant
-	for _, m := range mutantTable() {
+	for _, m := range append(mutantTable(), harmlessTable()...) {
 		if *only == "" || strings.Contains(m.ID, *only) || m.Prop == *only || m.Rule == *only {
 			ms = append(ms, m)
 		}
@@ -213,8 +222,8 @@ func cmdSelftest(args []string) int {
 	rs := runMutants(*repo, ms, *par)
 	bad := 0
 	for _, r := range rs {
-		fmt.Printf("%-10s %-4s %-4s %-40s expect=%s\n", r.Status, r.Prop, r.Rule, r.ID, r.Expect)
-		if r.Status != "detected" {
+		fmt.Printf("%-11s %-4s %-4s %-40s expect=%s\n", r.Status, r.Prop, r.Rule, r.ID, r.Expect)
+		if r.Status != "detected" && r.Status != "quiet" {
 			bad++
 			if r.Note != "" {
 				fmt.Printf("           note: %s\n", r.Note)
@@ -224,7 +233,7 @@ func cmdSelftest(args []string) int {
 			}
 		}
 	}
-	fmt.Printf("%d mutants, %d not detected\n", len(rs), bad)
+	fmt.Printf("%d edits, %d not as expected\n", len(rs), bad)
 	if bad > 0 {
 		return 1
 	}
